@@ -34,7 +34,7 @@ TOTAL_STR_METHODS = {'expandtabs', 'splitlines', 'join', 'strip', 'format', 'lst
 
 
 def run(ctx):
-    for fn in (r1_escape_parse, r2_containment, r3_style_dispatch, r4_collection_continues, r5_variants):
+    for fn in (r1_escape_parse, r2_containment, r3_style_dispatch, r4_collection_continues, r5_variants, r6_directives_checked_at_parse_time):
         ctx.rep.rule(fn, ctx)
 
 
@@ -551,6 +551,16 @@ def difference_upper_bound(g, a, b, cap=50):
                 IN[id(t)] = new
                 work.append(t)
     return {k: (v[0] if v[0] != 'bot' else None) for k, v in IN.items()}
+
+
+# ---------------------------------------------------------------------------
+def r6_directives_checked_at_parse_time(ctx):
+    """a malformed directive is broken doctest syntax: it has to surface inside DoctestParser.parse (where it becomes the library's parse
+    error and is contained per docstring), i.e. the parser extracts the directives of every source line itself; a line it skips is only
+    looked at lazily by DoctestPart.directives at run time, outside any containment (same clause as C04.R8)"""
+    from . import c04
+    from .common import run_as
+    run_as(ctx, c04.r8_break_placement, 'C04.R8', 'C14.R6')
 
 
 # ---------------------------------------------------------------------------
